@@ -186,7 +186,7 @@ func runCheck(o checkOpts) int {
 		fmt.Println("SPEC-ERROR:", se)
 	}
 	known := loadKnown(filepath.Join(o.verifDir, "known_findings.json"))
-	timeoutMs := 10000
+	timeoutMs := 8000
 	if o.tier == "thorough" {
 		timeoutMs = 60000
 	}
